@@ -10,6 +10,7 @@ import PV.Model.Ops
 import PV.Model.Corr
 import PV.Model.Format
 import PV.Spec.WF
+import PV.Model.Combine
 
 open Lean PV PV.Wire
 
@@ -202,6 +203,18 @@ def opMkObs (j : Json) : Except String Json := do
   | .ok o => pure (obj [("obs", enc o), ("wf", .bool (Spec.wfC04 o))])
   | .error e => pure (obj [("exc", .str (reprStr e))])
 
+/-- op "combine": {"what": "reweight" | "correlate" | "merge", "a": Obs, "b": Obs, "l": [Obs], "all_configs": bool} -/
+def opCombine (j : Json) : Except String Json := do
+  let what : String ← get j "what"
+  let r : Except CombErr (Obs Float) ← match what with
+    | "reweight" => do pure (reweight1 (← get j "a") (← get j "b") (← get j "all_configs"))
+    | "correlate" => do pure (correlate (← get j "a") (← get j "b"))
+    | "merge" => do pure (mergeObs (← get j "l"))
+    | _ => .error "unknown combine"
+  match r with
+  | .ok o => pure (obj [("obs", enc o)])
+  | .error e => pure (obj [("exc", .str (reprStr e))])
+
 def dispatch (op : String) (j : Json) : Except String Json :=
   match op with
   | "gamma" => opGamma false j
@@ -211,6 +224,7 @@ def dispatch (op : String) (j : Json) : Except String Json :=
   | "corr" => opCorr j
   | "fmt" => opFmt j
   | "wf" => opWf j
+  | "combine" => opCombine j
   | "mkobs" => opMkObs j
   | "ping" => pure (.str "pong")
   | _ => .error s!"unknown op {op}"
